@@ -861,9 +861,12 @@ class Models(object):
             return [(path, mk(r))]
         if name == 'format':
             ok, c = concrete_of(s)
-            if ok and c.count('{}') == 1 and c.count('{') == 1 and len(args) == 1 and isinstance(args[0], VStr) and not kw:
-                pre_, post_ = c.split('{}')
-                return [(path, VStr(z3.Concat(mk_str(pre_), args[0].t, mk_str(post_))))]
+            if ok and c.count('{}') == c.count('{') and c.count('{}') == len(args) >= 1 and all(isinstance(a, VStr) for a in args) and not kw:
+                parts = c.split('{}')
+                t = mk_str(parts[0])
+                for a, lit in zip(args, parts[1:]):
+                    t = z3.Concat(t, a.t, mk_str(lit))
+                return [(path, VStr(z3.simplify(t)))]
             r = VStr(ex.fresh_str(path, 'format'))
             if ok and c.count('{}') == 1 and len(args) == 1 and isinstance(args[0], VInt) and not kw:
                 # keep the template so struct.pack can interpret '{}s'
